@@ -296,6 +296,13 @@ def run(tier):
                     rel = True
         if rel and "std::path::Path::parent" in names and "std::path::PathBuf::push" in names:
             oki = True
+        # chain of custody: between the operand / the current file's directory and the set, the directory goes through nothing of the
+        # repository's own (a helper that rewrites it — lexical normalisation of `..`, canonicalisation — is not shown to keep its meaning)
+        own = sorted({MU.callee_names(c)[1] for c in calls if P.norm_path(key, c["callee"].get("rpath")) in P.body})
+        rep.ob("C11.search|includepath|as-computed", not own,
+               "the directory that .includepath adds is stored as computed (operand, joined to the current file's directory when relative)" if not own else
+               "the directory that .includepath adds goes through %s before it is stored: that it still names the directory that was written is not established (`..` steps, symbolic links)" % own,
+               kind="unprovable" if own else "violated", loc=loc_of(b["blocks"][bb]["tspan"]))
     rep.ob("C11.search|includepath", oki, ".includepath adds its argument, a relative one joined to the directory of the file containing the directive" if oki else
            ".includepath does not resolve a relative argument against the current file's directory")
     # ---- c. .exit is file-local
